@@ -211,6 +211,32 @@ Theorem bcast_setkey_needs_signature_char : forall c j p k',
   nth_error (fst (fst (apply c (OSetKey (p_id p) k')))) j = Some p.
 Proof. exact (setkey_without_sig 98). Qed.
 
+(* The roll-over inside the connected-event callback (event_begin / event_end, Model/Bcast.v):
+   in EVERY state it passes through - key request in flight, failed, completed - an advertisement
+   of the old epoch (any key other than the new one, counter <= the accessory's last number g)
+   is ignored.  The order "key first, number second" is what makes this true; see the
+   observation below for the other order. *)
+Theorem bcast_rollover_event_safe : forall c j p g s0 k' hdr k m a pt,
+  wf_ctrl c -> nth_error c j = Some p -> p_sig p = true -> p_sn p = Some s0 ->
+  rolls g = true -> m <= g -> k <> k' ->
+  let i := p_id p in
+  let ignored c2 := nth_error (fst (fst (detect c2 (hdr, PSeal k m a pt)))) j = nth_error c2 j /\
+                    calls_for i (snd (detect c2 (hdr, PSeal k m a pt))) = [] in
+  ignored (final_ops c (event_begin i g)) /\
+  ignored (final_ops c (event_begin i g ++ event_end i g ReqFail)) /\
+  ignored (final_ops c (event_begin i g ++ event_end i g (ReqOk k'))).
+Proof. exact (rollover_event_safe 98). Qed.
+
+Example c18_rollover_number_before_key_observation :
+  let wrong_begin := [OUpdate rx_id 65534; OUpdate rx_id 1] in
+  let c1 := final_ops [rx_p 65533] wrong_begin in
+  let '(c2, o2, cl2) := apply c1 (OAdv (rx_seal 7 5)) in
+  let right := final_ops [rx_p 65533] (event_begin rx_id 65534) in
+  let '(c3, o3, cl3) := apply right (OAdv (rx_seal 7 5)) in
+  (o2, cl2, map p_sn c2) = (OAccepted, [(rx_id, 1, 11, VInt 42)], [Some 5]) /\
+  (o3, cl3, map p_sn c3) = (ONoDecrypt, [], [Some 65534]).
+Proof. exact rollover_number_before_key_replay. Qed.
+
 (* roll-over as the code handles it (number := 1 AND a new key): old epoch ignored, new
    epoch accepted, a restart keeps the new key *)
 Example c18_rollover_with_rotation :
@@ -323,3 +349,4 @@ Print Assumptions bcast_accept_bound_16bit.
 Print Assumptions bcast_dead_at_max.
 Print Assumptions bcast_rotated_old_key_ignored.
 Print Assumptions bcast_setkey_needs_signature_char.
+Print Assumptions bcast_rollover_event_safe.
